@@ -92,8 +92,11 @@ func (s *State) getAPIKey(addr, user, pass string, logFH *os.File) (
 	loggedURI := passRE.ReplaceAllString(uri, "${1}xxx$2")
 	errlog.DoLog(logFH, loggedURI)
 	body, err := s.httpGet(uri)
-	keyRE := regexp.MustCompile(`<key>.*</key>`)
-	loggedBody := keyRE.ReplaceAllString(string(body), "<key>xxx</key>")
+	// Also hide key in incomplete answer
+	// and password in error page showing the requested URL.
+	keyRE := regexp.MustCompile(`(?s)<key>.*?(</key>|$)`)
+	loggedBody := keyRE.ReplaceAllString(hideSecrets(uri, string(body)),
+		"<key>xxx</key>")
 	errlog.DoLog(logFH, loggedBody)
 	if err != nil {
 		msg := err.Error()
@@ -270,8 +273,24 @@ func (s *State) httpPrefixGetLog(uri string, logFH *os.File) ([]byte, error) {
 	loggedURI := apiRE.ReplaceAllString(uri, "?key=xxx&")
 	errlog.DoLog(logFH, loggedURI)
 	body, err := s.httpGet(uri)
-	errlog.DoLog(logFH, string(body))
+	errlog.DoLog(logFH, hideSecrets(uri, string(body)))
 	return body, err
+}
+
+var secretRE = regexp.MustCompile(`[?&](?:key|password)=([^&]*)`)
+
+// Some server shows the requested URL in its error page.
+// Hide API key and password of requested URL in text received from server.
+func hideSecrets(uri, text string) string {
+	for _, m := range secretRE.FindAllStringSubmatch(uri, -1) {
+		if secret := m[1]; secret != "" {
+			text = strings.ReplaceAll(text, secret, "xxx")
+			if plain, err := url.QueryUnescape(secret); err == nil {
+				text = strings.ReplaceAll(text, plain, "xxx")
+			}
+		}
+	}
+	return text
 }
 
 func (s *State) httpGet(uri string) ([]byte, error) {
@@ -284,7 +303,7 @@ func (s *State) httpGet(uri string) ([]byte, error) {
 	if resp.StatusCode != http.StatusOK {
 		msg := fmt.Sprintf("status code: %d", resp.StatusCode)
 		if len(body) != 0 {
-			msg += "\n" + string(body)
+			msg += "\n" + hideSecrets(uri, string(body))
 		}
 		return body, errors.New(msg)
 	}
